@@ -31,14 +31,18 @@ def phase_panel(run, pool):
 def phase_paths(run, pool):
     """C17: exhaustive sweep routine x operator kind x {explicit key, default key} with one reused algorithm object."""
     t = time.time()
-    progs = P.path_programs_c17() + P.large_programs_c17()  # the large-draw programs also run here, invariants on
+    # the large-draw programs and the routine x kind matrix also run here, all invariants on
+    progs = P.path_programs_c17() + P.large_programs_c17() + P.matrix_programs_c17()
     n0 = run.evals
     pool.run(({"id": i, "kind": "program", "program": p["program"], "name": p["name"], "want_program": False,
-               "deadline": 240, "run_seed": ("large:" if p["program"]["config"].get("large") else "path:") + p["name"]}
+               "deadline": 240, "run_seed": ("large:" if p["program"]["config"].get("large") else
+                            "matrix:" if p["program"]["config"].get("matrix") else "path:") + p["name"]}
               for i, p in enumerate(progs)), run.absorb)
     run.phase_info["dispatch_path_sweep"] = {"programs": run.evals - n0, "algorithm_classes": len(P.PATH_CLASSES),
                                             "entry_points_accepting_the_object": len(P.PATH_ROUTINES),
                                             "operator_kinds": len(P.path_kinds()), "exhaustive": True,
+                                            "routine_x_kind_matrix_programs": len(P.matrix_programs_c17()),
+                                            "large_draw_programs": len(P.large_programs_c17()),
                                             "wall_s": round(time.time() - t, 1)}
 
 
